@@ -58,6 +58,11 @@ def check_table(col, way, table, cp, ids, nodes_present, rp):
 
 
 def run_order(col, way, d_or_ex, ids, g, cp, sel, rp, is_executor=False):
+    if len({cp[i] for i in sel}) != len(sel):
+        # (boundary priority vectors may tie: the order is then not unique; the table clauses still apply)
+        col.counters["order_checks_skipped_because_of_ties"] += 1
+        probes.run_op(way, lambda: d_or_ex())
+        return None
     B.reset_log()
     probes.reset_counts()
     res = probes.run_op(way, lambda: d_or_ex())
@@ -81,6 +86,15 @@ def one_shape(col, n, edges, rng, variants, sample=False):
         # signed powers of ten: sums over distinct descendant sets stay pairwise different (coefficients in {-1, 0, 1})
         prios = [p if rng.random() < 0.5 else -p for p in prios]
         col.counters["cp_shapes_with_negative_priorities"] += 1
+    if n >= 2 and rng.random() < 0.12:
+        # boundary vectors: priorities that add up to exactly 0, or that are all <= 0 (no positive priority anywhere)
+        if rng.random() < 0.5:
+            prios[-1] = -sum(prios[:-1])
+            col.counters["cp_shapes_with_priorities_summing_to_zero"] += 1
+        else:
+            prios = [-abs(p) for p in prios]
+            prios[rng.randrange(n)] = 0
+            col.counters["cp_shapes_without_positive_priority"] += 1
     sp = mk_spec(n, edges, prios)
     rp = {"kind": "cp_case", "n": n, "edges": edges, "prios": prios, "variants": variants, "source": S.render(sp)}
     d, _env, _plain = S.build_tawazi(sp)
@@ -182,13 +196,13 @@ def one_shape(col, n, edges, rng, variants, sample=False):
             r2 = probes.run_op("executor_retry", lambda: ex())
             order = [e["node"] for e in B.snapshot() if e["kind"] == "FENTER"]
             col.counters["cp_executor_retries"] += 1
-            if r2[0] == "ok":
+            if r2[0] == "ok" and len({cp[i] for i in allset}) == len(allset):
                 exp = [ids[i] for i in greedy_order(g, cp, allset)]
                 col.counters["order_checks"] += 1
                 if order != exp:
                     col.violation("C07", "order_not_the_unique_greedy_order(executor_retry_after_failure)",
                                   {"observed": order, "predicted": exp, "failed_first_at": ids[f]}, rp)
-            elif not isinstance(r2[1], TawaziUsageError):
+            elif r2[0] != "ok" and not isinstance(r2[1], TawaziUsageError):
                 col.counters["cp_executor_retry_raised_other"] += 1
     if "debug" in variants and n >= 2:
         debug_variant(col, n, edges, prios, rng, rp)
@@ -236,6 +250,8 @@ def debug_variant(col, n, edges, prios, rng, rp):
         order = [e["node"] for e in B.snapshot() if e["kind"] == "FENTER"]
         if res[0] == "ok":
             ran = {ids.index(x) for x in order}
+            if len({cp[i] for i in ran}) != len(ran):
+                return
             exp = [ids[i] for i in greedy_order(g, cp, ran)]
             col.counters["order_checks"] += 1
             if any(i in debug for i in ran):
